@@ -1,5 +1,6 @@
 import DhcpProofs.Lemmas.V4ValSetGet
 import DhcpProofs.Lemmas.V4ValSetGet2
+import DhcpProofs.Lemmas.V4ValLabel
 /-
   C17 — DHCPv4 typed accessors agree with the raw option bytes.
   Property theorems only; helper lemmas live in DhcpProofs/Lemmas/V4Val*.lean.
@@ -13,6 +14,7 @@ import DhcpProofs.Lemmas.V4ValSetGet2
     C17_A_bad     spec rejects v               → A returns its documented default
     C17_A_absent  no value                     → A returns its documented default
     C17_set_get_A constructor then A returns the value, on the stated domain
+  DomainSearch is stated against C19's relational spec (`Val4.searchList`).
   (`_bad` is omitted where the spec is total: strings and code lists.  For
   RelayAgentInfo `_wf`/`_bad` are `def …_full` + `_partial` + `_counterexample`:
   known finding acc-RelayAgentInfo-pad-end.)
@@ -594,6 +596,61 @@ theorem C17_set_get_ClientArch (o : GOpts) (as : List Nat) (hne : as ≠ [])
 
 example : Val4.archs [0, 7, 0, 9] = some [7, 9] ∧ Val4.archs [0, 7, 0] = none ∧ Val4.archs [] = none := by
   decide
+
+/-! ## domain search list (RFC 3397: RFC 1035 names with compression), else nil
+
+`Val4.searchList v ns` is the declarative RFC reading of C19's spec
+(`Spec.Name.DecodesTo`); the accessor returns a `*Labels` holding the names and
+a private copy of the raw value, or nil. -/
+
+theorem C17_DomainSearch_wf (o : GOpts) (v : Bytes) (ns : List Bytes)
+    (h : o.get Code.domainSearch = some v) (hs : Val4.searchList v ns) :
+    Acc.domainSearch o = .ok (some { original := some v, labels := ns }) :=
+  domainSearch_of_fromBytes o v _ h
+    (Label.fromBytes_of_labelsFromBytes (labelsFromBytes_complete v ns hs))
+theorem C17_DomainSearch_bad (o : GOpts) (v : Bytes)
+    (h : o.get Code.domainSearch = some v) (hs : ¬ ∃ ns, Val4.searchList v ns) :
+    Acc.domainSearch o = .ok none := by
+  have := labelsFromBytes_err_of_no_reading v hs
+  simp [Acc.domainSearch, h, Label.fromBytes, Label.Labels.fromBytes, Label.goBytes, this]
+theorem C17_DomainSearch_absent (o : GOpts) (h : o.get Code.domainSearch = none) :
+    Acc.domainSearch o = .ok none := by
+  simp [Acc.domainSearch, h]
+/-- `OptDomainSearch(labels)` for a hand-built set (`NewLabels`, `Labels = ns`)
+of one or more valid names (RFC 1035 labels of 1..63 octets, name ≤ 253): the
+names read back. -/
+theorem C17_set_get_DomainSearch (o : GOpts) (ns : List Bytes) (hv : Spec.Name.ValidNames ns)
+    (hne : ns ≠ []) :
+    ∃ raw l, labelsGoBytes { original := none, labels := ns } = .ok raw ∧
+      Acc.domainSearch (o.update Code.domainSearch raw) = .ok (some l) ∧ l.labels = ns :=
+  ⟨_, _, labelsGoBytes_new ns, domainSearch_of_encoded o ns hv hne, rfl⟩
+/-- get → edit → set → get: a set obtained by parsing (e.g. from
+`DomainSearch()`), whose names the caller then changes to a different
+non-empty list of valid names, reads back as the NEW names after
+`OptDomainSearch` — whatever the original bytes were (compressed or not). -/
+theorem C17_set_get_DomainSearch_edited (o : GOpts) (b : Bytes) (l : Label.Labels) (ns' : List Bytes)
+    (hp : Label.fromBytes b = .ok l) (hch : ns' ≠ l.labels)
+    (hv : Spec.Name.ValidNames ns') (hne : ns' ≠ []) :
+    ∃ raw l', labelsGoBytes { l with labels := ns' } = .ok raw ∧
+      Acc.domainSearch (o.update Code.domainSearch raw) = .ok (some l') ∧ l'.labels = ns' :=
+  ⟨_, _, labelsGoBytes_edited hp hch, domainSearch_of_encoded o ns' hv hne, rfl⟩
+/-- get → set → get without an edit: the very bytes that were parsed are
+stored again, and the same set is read back. -/
+theorem C17_set_get_DomainSearch_unmodified (o : GOpts) (b : Bytes) (l : Label.Labels)
+    (hp : Label.fromBytes b = .ok l) :
+    labelsGoBytes l = .ok (some b) ∧
+      Acc.domainSearch (o.update Code.domainSearch (some b)) = .ok (some l) :=
+  ⟨labelsGoBytes_unmodified hp, domainSearch_of_fromBytes _ _ _ (GOpts.get_update_same _ _ _) hp⟩
+
+/-- `example.com`, `foo.<pointer to offset 0>` is a search list of two names … -/
+example : Acc.domainSearch (GOpts.empty.update 119
+    (some [7, 101, 120, 97, 109, 112, 108, 101, 3, 99, 111, 109, 0, 3, 102, 111, 111, 192, 0])) =
+    .ok (some ⟨some [7, 101, 120, 97, 109, 112, 108, 101, 3, 99, 111, 109, 0, 3, 102, 111, 111, 192, 0],
+      [[101, 120, 97, 109, 112, 108, 101, 46, 99, 111, 109],
+       [102, 111, 111, 46, 101, 120, 97, 109, 112, 108, 101, 46, 99, 111, 109]]⟩) := by decide
+/-- … and a label running past the end is not -/
+example : Acc.domainSearch (GOpts.empty.update 119 (some [3, 97, 98])) = .ok none := by decide
+example : Spec.Name.ValidNames [[97, 46, 98], [99]] := by decide
 
 /-! ## "never a partial or misaligned value", in one statement per family:
 whatever the raw value, the result is either the spec's value or the default -/
